@@ -23,53 +23,8 @@ func runC02(c *Ctx, r *Report) {
 	// R1
 	byteOrderDiscipline(c, r, "C02-R1-byte-order")
 	m := c.matrix()
-	for i, e := range m.armErrs {
-		r.undecided("C02-R2-arm-table", fmt.Sprintf("arm-extraction-%d", i), "", e)
-	}
-	r.set("validator_evaluations", m.nEval)
-	r.set("validator_accepted_points", m.nAccept)
 	ev := newEvaluator(c)
-	// ---- R2 ----------------------------------------------------------------------------------------
-	family := func(fb *fitBase) string {
-		switch {
-		case fb.invalidIs == "empty-string":
-			return "SetString"
-		case fb.float:
-			return "SetFloat"
-		case fb.signed:
-			return "SetInt"
-		}
-		return "SetUint"
-	}
-	checkArms := func(kind string, arms []fieldArm) {
-		for _, a := range arms {
-			for _, k := range a.Consts {
-				fb := fitBaseByWire(k)
-				key := fmt.Sprintf("%s/base-%#02x", kind, k)
-				if fb == nil {
-					r.fail("C02-R2-arm-table", key, c.pos(a.Pos), "arm for a byte that is not a FIT base type")
-					continue
-				}
-				bi := c.baseInfo(ev, k)
-				wantW := bi.Size
-				wantS := family(fb)
-				if fb.name == "byte" && kind == "array" {
-					wantS = "SetBytes"
-				}
-				if fb.invalidIs == "empty-string" {
-					wantW = 1
-					if kind == "array" {
-						wantS = "Set"
-					}
-				}
-				ok := a.Width == wantW && a.Setter == wantS
-				r.check(ok, "C02-R2-arm-table", key, c.pos(a.Pos), fmt.Sprintf("%s arm for %s reads %d byte(s) and uses %s", kind, fb.name, a.Width, a.Setter),
-					fmt.Sprintf("%s arm for %s reads %d byte(s) with %s; the base type is %d byte(s) wide and needs %s: decoded values are wrong for every such field", kind, fb.name, a.Width, a.Setter, wantW, wantS))
-			}
-		}
-	}
-	checkArms("scalar", m.scalar)
-	checkArms("array", m.array)
+	decoderArms(c, r)
 	// coverage: every base in the table has an arm
 	for _, fc := range m.classes {
 		if !fc.Found || fc.Kind != kindNative {
@@ -176,12 +131,69 @@ func runC02(c *Ctx, r *Report) {
 		r.check(ok, "C02-R9-string-arm", "parseFitField/string-arm", pos, why, "a string field does not decode to the wire bytes before the first 0x00 inside the field: "+why)
 	}
 	c02StringArrayArm(c, r)
+	c02AbsentInvalid(c, r)
 	c02TimeAlwaysSet(c, r)
 	// ---- R8 ---------------------------------------------------------------------------------------------
 	c02Widening(c, r)
 }
 
 // c02FieldTargets: R4.
+
+// decoderArms: each arm of the scalar and the array field parser reads the width of its base type
+// and stores through the reflect setter of that type's family (SetInt for signed, SetUint for
+// unsigned, SetFloat, SetString, SetBytes): what the decoder does with the bytes of every base type,
+// and so with the bytes Encode writes for it.
+func decoderArms(c *Ctx, r *Report) {
+	m := c.matrix()
+	for i, e := range m.armErrs {
+		r.undecided("C02-R2-arm-table", fmt.Sprintf("arm-extraction-%d", i), "", e)
+	}
+	r.set("validator_evaluations", m.nEval)
+	r.set("validator_accepted_points", m.nAccept)
+	ev := newEvaluator(c)
+	// ---- R2 ----------------------------------------------------------------------------------------
+	family := func(fb *fitBase) string {
+		switch {
+		case fb.invalidIs == "empty-string":
+			return "SetString"
+		case fb.float:
+			return "SetFloat"
+		case fb.signed:
+			return "SetInt"
+		}
+		return "SetUint"
+	}
+	checkArms := func(kind string, arms []fieldArm) {
+		for _, a := range arms {
+			for _, k := range a.Consts {
+				fb := fitBaseByWire(k)
+				key := fmt.Sprintf("%s/base-%#02x", kind, k)
+				if fb == nil {
+					r.fail("C02-R2-arm-table", key, c.pos(a.Pos), "arm for a byte that is not a FIT base type")
+					continue
+				}
+				bi := c.baseInfo(ev, k)
+				wantW := bi.Size
+				wantS := family(fb)
+				if fb.name == "byte" && kind == "array" {
+					wantS = "SetBytes"
+				}
+				if fb.invalidIs == "empty-string" {
+					wantW = 1
+					if kind == "array" {
+						wantS = "Set"
+					}
+				}
+				ok := a.Width == wantW && a.Setter == wantS
+				r.check(ok, "C02-R2-arm-table", key, c.pos(a.Pos), fmt.Sprintf("%s arm for %s reads %d byte(s) and uses %s", kind, fb.name, a.Width, a.Setter),
+					fmt.Sprintf("%s arm for %s reads %d byte(s) with %s; the base type is %d byte(s) wide and needs %s: decoded values are wrong for every such field", kind, fb.name, a.Width, a.Setter, wantW, wantS))
+			}
+		}
+	}
+	checkArms("scalar", m.scalar)
+	checkArms("array", m.array)
+}
+
 func c02FieldTargets(c *Ctx, r *Report) {
 	n := 0
 	for _, fname := range []string{"decoder.parseDataFields", "decoder.parseDataMessage"} {
